@@ -18,33 +18,38 @@ def main():
     dst = os.path.join(VERIF, "seeded", "%s-%s%s" % (prop, rnd + "-" if rnd else "", k))
     wt = "/tmp/seedverify-%s-%s" % (prop, k)
     meta = {"property": prop, "id": "%s-%s%s" % (prop, os.environ.get("SEED_ROUND", "") + "-" if os.environ.get("SEED_ROUND") else "", k), "ran": []}
-    subprocess.run(["git", "-C", "/repo", "worktree", "remove", "--force", wt], stderr=subprocess.DEVNULL)
-    subprocess.check_call(["git", "-C", "/repo", "worktree", "add", "-q", "--detach", wt, "HEAD"])
-    try:
-        patch = os.path.join(src, "patch.diff")
-        demo_cmd = open(os.path.join(src, "demo_cmd.txt")).read().strip()
-        demos = [f for f in os.listdir(src) if f.endswith(".go") or f == "demo"]
-        # the agent's demo command refers to files under _seed/<k>/ relative to the worktree root: copy them there and run it verbatim
-        shutil.copytree("/tmp/seed/%s/_seed" % prop, os.path.join(wt, "_seed"))
-        run = "set -e\n" + demo_cmd
-        rc0, out0 = sh(run, wt)
-        meta["demo_unchanged"] = {"cmd": demo_cmd, "rc": rc0, "tail": out0[-400:]}
-        rc, out = sh("git apply %s" % patch, wt)
-        if rc != 0:
-            meta["error"] = "patch does not apply: " + out[-300:]
-            raise SystemExit
-        rcb, outb = sh("go build ./...", wt)
-        meta["build_with_change"] = rcb
-        # existing tests with the change: move the demo test files out of the way first
-        sh("git clean -fdq -e _seed -- x app", wt)
-        rct, outt = sh("go test -vet=off -count=1 ./x/... ./app/... 2>&1 | grep -v 'no test files' | grep -v '^ok' | head -20", wt)
-        # the demo itself is in the tree during this run: ignore its own package failure lines caused by the demo test
-        meta["existing_tests_with_change"] = outt[-600:]
-        rc1, out1 = sh(run, wt)
-        meta["demo_with_change"] = {"rc": rc1, "tail": out1[-600:]}
-        meta["confirmed"] = (rc0 == 0 and rc1 != 0 and rcb == 0 and "FAIL" not in outt)
-        meta["ran"].append("scratch worktree %s: demo on unchanged tree rc=%d, with change rc=%d, go build rc=%d" % (wt, rc0, rc1, rcb))
-    finally:
+    phase = os.environ.get("SEED_PHASE", "all")   # confirm (scratch worktree only, parallelisable) | check (on /repo, sequential) | all
+    patch = os.path.join(src, "patch.diff")
+    demos = [f for f in os.listdir(src) if f.endswith(".go") or f == "demo"]
+    if phase == "check":
+        meta = json.load(open(os.path.join(dst, "meta.json")))
+    else:
+      subprocess.run(["git", "-C", "/repo", "worktree", "remove", "--force", wt], stderr=subprocess.DEVNULL)
+      subprocess.check_call(["git", "-C", "/repo", "worktree", "add", "-q", "--detach", wt, "HEAD"])
+      try:
+          demo_cmd = open(os.path.join(src, "demo_cmd.txt")).read().strip()
+          demos = [f for f in os.listdir(src) if f.endswith(".go") or f == "demo"]
+          # the agent's demo command refers to files under _seed/<k>/ relative to the worktree root: copy them there and run it verbatim
+          shutil.copytree("/tmp/seed/%s/_seed" % prop, os.path.join(wt, "_seed"))
+          run = "set -e\n" + demo_cmd
+          rc0, out0 = sh(run, wt)
+          meta["demo_unchanged"] = {"cmd": demo_cmd, "rc": rc0, "tail": out0[-400:]}
+          rc, out = sh("git apply %s" % patch, wt)
+          if rc != 0:
+              meta["error"] = "patch does not apply: " + out[-300:]
+              raise SystemExit
+          rcb, outb = sh("go build ./...", wt)
+          meta["build_with_change"] = rcb
+          # existing tests with the change: move the demo test files out of the way first
+          sh("git clean -fdq -e _seed -- x app", wt)
+          rct, outt = sh("go test -vet=off -count=1 ./x/... ./app/... 2>&1 | grep -v 'no test files' | grep -v '^ok' | head -20", wt)
+          # the demo itself is in the tree during this run: ignore its own package failure lines caused by the demo test
+          meta["existing_tests_with_change"] = outt[-600:]
+          rc1, out1 = sh(run, wt)
+          meta["demo_with_change"] = {"rc": rc1, "tail": out1[-600:]}
+          meta["confirmed"] = (rc0 == 0 and rc1 != 0 and rcb == 0 and "FAIL" not in outt)
+          meta["ran"].append("scratch worktree %s: demo on unchanged tree rc=%d, with change rc=%d, go build rc=%d" % (wt, rc0, rc1, rcb))
+      finally:
         subprocess.run(["git", "-C", "/repo", "worktree", "remove", "--force", wt])
     # our checks against the change on /repo itself
     os.makedirs(dst, exist_ok=True)
@@ -59,6 +64,10 @@ def main():
         if os.path.exists(os.path.join(src, f)):
             shutil.copy(os.path.join(src, f), os.path.join(dst, f))
     meta["checks"] = {}
+    if phase == "confirm":
+        json.dump(meta, open(os.path.join(dst, "meta.json"), "w"), indent=1)
+        print(prop, k, "confirmed=%s" % meta.get("confirmed"))
+        return
     if meta.get("confirmed"):
         subprocess.check_call(["git", "-C", "/repo", "apply", patch])
         try:
